@@ -182,6 +182,13 @@ def __setitem__(self, indx, arg):
     if moved_to_front:
         rank = len(array_shape)
         arg_rank = len(arg._shape_)
+
+        # The axes of the arg line up with those of the selection from the right
+        full_rank = np.ndim(self._values_[vals_index]) - self._rank_
+        if 0 < arg_rank < full_rank:
+            arg = arg.reshape((full_rank - arg_rank) * (1,) + arg._shape_)
+            arg_rank = full_rank
+
         if first_array_loc > arg_rank:
             moved_to_front = False          # arg rank does not reach array loc
         if first_array_loc + rank > arg_rank:
